@@ -11,7 +11,7 @@ from bridge_env.network_bridge.server import PlayerThread, Server
 from pyvc.dsl import (Alias, Bool, Const, DecodedStr, Dict, Enum, Ext, Int, IntElem, Obj, OneOf, Opt,
                       Seq, Text, TraceList, TraceReset, Tuple, contract, klass, lemma, transparent,
                       LoopContract)
-from pyvc.speclib import (calls_since, conj, disj, forall, iff, implies, ite, opt_or, same, sock_sent,
+from pyvc.speclib import (call_arg, calls_since, conj, disj, forall, iff, implies, ite, opt_or, same, sock_sent,
                           starts_with)
 import spec.protocol as PR
 import spec.table as G
@@ -103,6 +103,15 @@ class _check_message:
                         self.connection_socket.closed))
 
 
+CM = PlayerThread._check_message
+
+
+def asked(iter, k):
+    """The text the seat thread expects from its client in the k-th readiness check of this
+    activation / iteration (what `_check_message` is called with)."""
+    return call_arg(iter, CM, k, 'expected_message')
+
+
 # ---- admission (C20) -----------------------------------------------------------------------------
 
 @contract('bridge_env.network_bridge.server.PlayerThread._connect', props=P)
@@ -149,6 +158,13 @@ class _connect:
             first == line(G.FORMAL[seat] + ' ' + team + ' seated'),
             implies(valid(T0), valid(self.team_names))))
 
+    # the two readiness messages of the handshake are the protocol's (and the bundled client's)
+    def ensures_waits_for_the_protocol_texts(self, result, frame):
+        n = calls_since(None, CM)
+        me = G.FORMAL[self.player]
+        return conj(n <= 2, n < 1 or asked(None, 0) == me + ' ready for teams',
+                    n < 2 or asked(None, 1) == me + ' ready to start', implies(result, n == 2))
+
     # a client that is admitted is told both team names as they stand in the seat table
     def ensures_admitted_client_is_told_both_teams(self, result):
         T = self.team_names
@@ -193,6 +209,15 @@ class _seat_deal:
         return implies(result, conj(len(g) == len(from_main(old.self)) + 2,
                                     sent(self) == sent(old.self) + [line(g[-2]), line(g[-1])]))
 
+    # ... and the client is expected to say exactly what the protocol (and the bundled client:
+    # C11) says: "<Seat> ready for deal", then "<Seat> ready for cards"
+    def ensures_waits_for_the_protocol_texts(self, result, frame):
+        n = calls_since(None, CM)
+        me = my_name(self)
+        return conj(1 <= n, n <= 2, asked(None, 0) == me + ' ready for deal',
+                    n < 2 or asked(None, 1) == me + ' ready for cards',
+                    implies(result, n == 2))
+
 
 def _seat_bid_inv(self):
     return pt_inv(self)
@@ -206,8 +231,12 @@ def _seat_bid_step(self, iter, message):
     g = from_main(self)
     s = sent(self)
     relayed = (len(g) != 2) or (len(to_main(self)) == 0 and len(s) >= 1 and s[-1] == line(g[1]))
-    return conj(implies(mine, conj(len(s) == 0, len(to_main(self)) == 1, len(g) == 1)),
-                implies(not mine, relayed))
+    n = calls_since(iter, CM)
+    return conj(implies(mine, conj(len(s) == 0, len(to_main(self)) == 1, len(g) == 1, n == 0)),
+                implies(not mine, relayed),
+                # another seat's call: the client must first say "<Seat> ready for <seat on turn>'s bid"
+                n == 0 or conj(n == 1, not mine,
+                               asked(iter, 0) == my_name(self) + ' ready for ' + message + "'s bid"))
 
 
 @contract('bridge_env.network_bridge.server.PlayerThread._bidding_phase', props=['C10'])
@@ -258,7 +287,18 @@ def _seat_card_step(self, iter, trick_num, i, declarer, dummy):
     dummy_last = len(g) >= 1 and len(s) >= 1 and s[-1] == line(g[-1])
     relayed_first = len(g) >= 1 and ((len(s) >= 1 and s[0] == line(g[0])) or
                                      (len(s) >= 2 and s[1] == line(g[0])))
+    # what the client must say before it is sent a card / dummy's cards
+    n = calls_since(iter, CM)
+    ready_for_card = my_name(self) + ' ready for ' + ('dummy' if active is dummy else G.FORMAL[active]) + \
+        "'s card to trick " + str(trick_num)
+    ready_for_dummy = my_name(self) + ' ready for dummy'
+    texts = conj(
+        implies(disj(i_play, i_play_dummy), n == n_extra),
+        implies(conj(not i_play, not i_play_dummy), conj(n == 1 + n_extra, n < 1 or
+                                                         asked(iter, 0) == ready_for_card)),
+        implies(disclose, n >= 1 and asked(iter, n - 1) == ready_for_dummy))
     return conj(
+        texts,
         implies(disj(i_play, i_play_dummy), conj(
             len(to_main(self)) == 1, prompt_first, len(g) == n_extra,
             implies(not disclose, len(s) == len(expect_prompt)),
